@@ -152,10 +152,10 @@ type Mapping map[Subject][]WeightedMapping
 func (m *Mapping) Validate(vr *ValidationResults) {
 	for ubFrom, wm := range (map[Subject][]WeightedMapping)(*m) {
 		ubFrom.Validate(vr)
-		total := uint8(0)
+		total := 0
 		for _, wm := range wm {
 			wm.Subject.Validate(vr)
-			total += wm.GetWeight()
+			total += int(wm.GetWeight())
 		}
 		if total > 100 {
 			vr.AddError("Mapping %q exceeds 100%% among all of it's weighted to mappings", ubFrom)
